@@ -109,7 +109,7 @@ type statsDump struct {
 func DumpStats(path string) error {
 	statsMu.Lock()
 	defer statsMu.Unlock()
-	var out []statsDump
+	out := []statsDump{}
 	for _, s := range allStats {
 		d := statsDump{Prop: s.Prop, Rule: s.Rule, Evals: s.Evals, Labels: s.Labels, Excluded: s.Excluded, Samples: s.Samples}
 		for h := range s.nt {
